@@ -30,6 +30,9 @@ type realCfg struct {
 	what    string // "dec", "lz", "raw" or comma list
 	maxlen  int
 	curFile string
+	// enumerated structural cases (corpus.TrailingLengthCases): this process takes those with index % enumN == enumK;
+	// cases starting at one of the common outer layers are thinned to every enumStride-th (0: no enumerated cases)
+	enumK, enumN, enumStride int
 }
 
 func optName(o gopacket.DecodeOptions) string {
@@ -494,6 +497,23 @@ func runReal(tr *vh.Trace, cfg realCfg) int {
 	for _, w := range strings.Split(cfg.what, ",") {
 		want[w] = true
 	}
+	runCase := func(i int, name string, data []byte, first gopacket.LayerType, o int) {
+		opts := gopacket.DecodeOptions{Lazy: o&1 != 0, NoCopy: o&2 != 0, Pool: o&4 != 0, DecodeStreamsAsDatagrams: o&8 != 0}
+		curCase.Store(fmt.Sprintf("%s first=%s opts=%s len=%d", name, first, optName(opts), len(data)))
+		tick.Store(int64(i))
+		if cfg.curFile != "" && i%64 == 1 {
+			os.WriteFile(cfg.curFile, []byte(curCase.Load().(string)), 0644)
+		}
+		if want["dec"] {
+			decEvent(tr, i, name, data, first, opts)
+		}
+		if want["lz"] && len(data) > 0 {
+			lzEvent(tr, i, name, data, first, opts, r)
+		}
+		if want["raw"] {
+			rawEvent(tr, i, name, data, first, opts.DecodeStreamsAsDatagrams, dls, dlNames, r)
+		}
+	}
 	for i := 1; i <= cfg.n; i++ {
 		f := fx[r.Intn(len(fx))]
 		data := f.Data
@@ -539,24 +559,26 @@ func runReal(tr *vh.Trace, cfg realCfg) int {
 			}
 		}
 		o := r.Intn(16)
-		opts := gopacket.DecodeOptions{Lazy: o&1 != 0, NoCopy: o&2 != 0, Pool: o&4 != 0, DecodeStreamsAsDatagrams: o&8 != 0}
-		curCase.Store(fmt.Sprintf("%s first=%s opts=%s len=%d", name, first, optName(opts), len(data)))
-		tick.Store(int64(i))
-		if cfg.curFile != "" && i%64 == 1 {
-			os.WriteFile(cfg.curFile, []byte(curCase.Load().(string)), 0644)
-		}
-		if want["dec"] {
-			decEvent(tr, i, name, data, first, opts)
-		}
-		if want["lz"] && len(data) > 0 {
-			lzEvent(tr, i, name, data, first, opts, r)
-		}
-		if want["raw"] {
-			rawEvent(tr, i, name, data, first, opts.DecodeStreamsAsDatagrams, dls, dlNames, r)
+		runCase(i, name, data, first, o)
+	}
+	nenum := 0
+	if cfg.enumStride > 0 && cfg.enumN > 0 {
+		common := map[string]bool{"Ethernet": true, "IPv4": true, "IPv6": true, "TCP": true, "UDP": true}
+		idx := 0
+		for ci, c := range corpus.TrailingLengthCases(fx, 12) {
+			if common[c.First.String()] && (ci+int(cfg.seed))%cfg.enumStride != 0 {
+				continue
+			}
+			idx++
+			if idx%cfg.enumN != cfg.enumK {
+				continue
+			}
+			nenum++
+			runCase(cfg.n+nenum, c.Name, c.Data, c.First, idx/cfg.enumN+int(cfg.seed))
 		}
 	}
 	close(stop)
-	return cfg.n
+	return cfg.n + nenum
 }
 
 func safePacket(data []byte, first gopacket.LayerType) (p gopacket.Packet) {
